@@ -218,3 +218,42 @@ func VH_C20_StartupMigration_sym() {
 		vAssertEqBytesEither("migrated_account_old_or_new_at_crash", s.data[i], old, newDoc)
 	}
 }
+
+// The same for the longest logins (245..251 bytes, where "<login>.yaml.tmp" no longer fits a 255-byte file name but
+// "<login>.yaml" still does): whatever the update does about its temporary file, the account file holds the complete
+// old or the complete new document at every crash point.
+func VH_C20_AccountUpdateLongestLogins_sym() {
+	vUnroll(400)
+	vfsReset()
+	n := vInt("login_length")
+	vAssume(n >= 245 && n <= 251)
+	n = vConcrete(n)
+	lb := make([]byte, n)
+	for i := range lb {
+		lb[i] = 'a' + byte(i%26)
+	}
+	login := string(lb)
+	file := "/cfg/Users/" + login + ".yaml"
+	old := vBytes("old", 200)
+	vAssume(len(old) >= 1)
+	vfs.put(file, old)
+	initial := vfs.clone()
+	am := &YAMLAccountManager{accountDir: "/cfg/Users", accounts: map[string]hotline.Account{login: c20Account(login)}}
+	err := am.Update(c20Account(login), login)
+	if err != nil {
+		// refusing the update is fine as long as nothing was touched
+		i := vfs.find(file)
+		vAssert("refused_update_leaves_the_file_alone", i >= 0)
+		if i >= 0 {
+			vAssertEqBytes("refused_update_file_unchanged", vfs.data[i], old)
+		}
+		return
+	}
+	newDoc := c20LastWritten()
+	s := c20Crash(initial)
+	i := s.find(file)
+	vAssert("long_login_account_file_exists_at_crash", i >= 0)
+	if i >= 0 {
+		vAssertEqBytesEither("long_login_account_old_or_new_at_crash", s.data[i], old, newDoc)
+	}
+}
